@@ -15,6 +15,7 @@ import os
 
 import c15_model as M
 import c16_corpus as K
+import c16_names as NM
 from c15 import RUNNER, file_diff, known_entries, same_result
 from c15_corpus import FULL_CERT
 from lib import (Check, COMMON_TRUSTED, compile_batch, coq_bool, coq_list, coq_str, coq_z, eval_cases, run_py)
@@ -28,8 +29,17 @@ HEADER16 = ("From Coq Require Import ZArith String List Bool Ascii.\n"
 
 # --------------------------------------------------------------------------- metamorphic pairs
 
-def gen_pairs(rng, tier):
+SELECTOR_ARG_FINDING = "C16-selector-argument-of-macro"
+
+
+def gen_pairs(rng, tier, rel_stats=None, selector_args=False):
     pairs = []
+    rel_stats = {} if rel_stats is None else rel_stats
+    # strengthening round 1: pairs generated from RELATIONS between names / texts (c16_names)
+    q = tier == "quick"
+    pairs += NM.param_pairs(rng, 260 if q else 2000, rel_stats.setdefault("parameterised", {}), selector_args=selector_args)
+    pairs += NM.calc_pairs(rng, 220 if q else 1500, rel_stats.setdefault("integer_names", {}))
+    pairs += NM.alone_pairs(rng, 120 if q else 800, rel_stats.setdefault("left_alone", {}))
     for m in K.MACROS:
         for u in K.USES:
             if not K.fits(m, u):
@@ -87,6 +97,10 @@ def known_class(p, ra, rb):
     for f in known_entries(PROP):
         m = f.get("match", {})
         if m.get("macros") and p["macro"] not in m["macros"]:
+            continue
+        if m.get("selector_arg") and not p.get("selector_arg"):
+            continue
+        if m.get("msg_contains") and (ra["ok"] or not any(x in ra["msg"] for x in m["msg_contains"])):
             continue
         if m.get("uses") and p["use"] not in m["uses"]:
             continue
@@ -180,7 +194,14 @@ def main(tier: str) -> int:
     ck.proof(extra_targets=["Run/C16.vo"])
 
     # ---- metamorphic pairs
-    pairs = gen_pairs(ck.rng, tier)
+    rel_stats = {}
+    probe = run_py(RUNNER, dict(op="probe"), timeout=60)
+    # `KILL(@e[type=pig])`: rejected by a tree without fixes/C16-selector-argument-of-macro.patch.  Such arguments are
+    # generated when the tree has the fix (then they must pass), when the finding is listed (then they are reported as
+    # KNOWN-FINDING) or on demand (VERIF_C16_SELECTOR_ARGS=1: demonstrates the defect as a VIOLATION).
+    selector_args = (bool(probe.get("selector_arg_fix")) or os.environ.get("VERIF_C16_SELECTOR_ARGS") == "1"
+                     or any(f.get("id") == SELECTOR_ARG_FINDING for f in known_entries(PROP)))
+    pairs = gen_pairs(ck.rng, tier, rel_stats, selector_args)
     ra = compile_batch([job_a(p) for p in pairs], chunk=60)
     rb = compile_batch([job_b(p) for p in pairs], chunk=60)
     n_valid, n_invalid, differing = 0, 0, []
@@ -219,7 +240,6 @@ def main(tier: str) -> int:
         ))
 
     # ---- model tie
-    probe = run_py(RUNNER, dict(op="probe"), timeout=60)
     terms, raw = header_cases(ck.rng, tier, bool(probe["has_end"]), bool(probe["case_fix"]))
     bad, errs = eval_cases(PROP, HEADER16, terms, per_file=250, list_name="cases", checker="hmismatches")
     uns, errs2 = eval_cases(PROP, HEADER16, terms, per_file=250, checker="hunsupported", prefix="uns")
@@ -253,7 +273,10 @@ def main(tier: str) -> int:
              "distinct = distinct (program, header); tie cases = header x use-site line token streams + number_macros, CustomOrder grid",
         macros=len(K.MACROS), use_site_kinds=len(K.USES), pairs=len(pairs), valid_pairs=n_valid, both_rejected=n_invalid,
         differing_pairs=len(differing), known_pairs=known_n, disagreements_checked=len(differing),
-        use_site_histogram=hist, programs=2 * len(pairs),
+        use_site_histogram=hist, programs=2 * len(pairs), relation_cases=rel_stats,
+        selector_arguments_generated=selector_args, tree_variants=probe,
+        relation_pairs_valid={m: sum(1 for p, a, b in zip(pairs, ra, rb) if p["macro"] == m and (a["ok"] or b["ok"]))
+                              for m in ("param-relations", "int-name-relations", "left-alone-relations")},
         model_tie=dict(header_token_cases=len(terms), mismatches=len(bad), model_declined=len(uns),
                        custom_order_cases=len(oterms), custom_order_mismatches=len(obad)),
         samples=[dict(header=p["header"], with_macro=p["a"], hand=p["b"]) for p in pairs[:2]],
